@@ -49,6 +49,7 @@ struct SchedConfig
    int                 policy = polRandom;
    uint64_t            seed = 1;
    unsigned            p = 64;               // polRandom: 1/p per point
+   unsigned            sync_pct = 0;         // polRandom: chance (%) to switch at a lock/unlock point
    unsigned            child_first_pct = 50; // polRandom/polRoundRobin: at pthread_create
    unsigned            pct_depth = 2;        // polPct: number of priority change points
    uint64_t            points_est = 10000;   // polPct: expected length of the run
